@@ -10,6 +10,7 @@ around them.
 Directives
   //@@ unit props=C01,C06            header: properties served by this unit
   //@@ props C10                     attribution of following prelude proof fns
+  //@@ include common/bytes.rs       splice another template file (path relative to units/) at this point
   //@@ item <file> <kind> <path> [keep_attrs] [nth=N]
                                      copy a struct/enum/const/static/type verbatim
   //@@ impl <file> <path> [nth=N]    open an impl block (header copied verbatim)
@@ -20,7 +21,7 @@ Directives
   //@@ loop K [GHOST]                text inserted before the body of the K-th loop;
                                      GHOST names the ghost iterator of a `for`
   //@@ r6 K                          desugar for-loop K (rewrite R6)
-  //@@ before /REGEX/                text inserted before the unique match in the fn text
+  //@@ before /REGEX/[#KofN]         text inserted before the unique match in the fn text (or the K-th of exactly N matches)
   //@@ after /REGEX/                 text inserted after the unique match
   //@@ body                          text inserted right after the body's `{`
   //@@ replace /REGEX/ WHY           ad-hoc declared rewrite: match replaced by the text block
@@ -209,6 +210,11 @@ def parse_template(path):
             elif d == "props":
                 flush()
                 nodes.append(("props", tok[1], i + 1))
+            elif d == "include":
+                flush()
+                inc = os.path.join(VERIF, "units", tok[1])
+                u2, n2 = parse_template(inc)
+                nodes.extend(n2)
             elif d == "item":
                 flush()
                 nodes.append(("item", tok[1], tok[2], " ".join(tok[3:]).split(" [")[0] if False else None, tok, i + 1))
@@ -315,8 +321,9 @@ def render_fn(fs, out, unit, log):
             log["rewrites"].append({"rule": "R2", "fn": fs.path, "from": pat, "to": nm})
 
     if fs.opts.get("external_body"):
-        # body not verified: replaced by an external_body marker (declared, counted as trusted)
-        log["trusted"].append(f"external_body on real fn {fs.path} (body not verified)")
+        # body not verified by Verus (declared; counted as trusted unless a Kani harness discharges the contract)
+        log["trusted"].append(f"external_body on real fn {fs.path}: contract assumed in Verus" + (f" (discharged by Kani harness {fs.opts['by']})" if fs.opts.get("by") else ""))
+        ins(0, "#[verifier::external_body]\n", {"type": "annot", "fn": fs.path, "unit": unit, "what": "external_body"}, prio=5)
 
     loops = rec.get("loops", [])
     body_ins = "".join(r2_lets)
@@ -356,21 +363,23 @@ def render_fn(fs, out, unit, log):
             ins(le, " } } }", ro, prio=-2)
             log["rewrites"].append({"rule": "R6", "fn": fs.path, "loop": k, "iter": expr})
         elif kind in ("before", "after", "replace"):
-            m = re.match(r"/(.+)/\s*(.*)$", arg)
+            m = re.match(r"/(.+)/(?:#(\d+)of(\d+))?\s*(.*)$", arg)
             if not m:
                 raise SystemExit(f"template line {tline}: bad anchor {arg}")
             rx = re.compile(m.group(1), re.S)
             ms = list(rx.finditer(text, body_s, body_e))
-            if len(ms) != 1:
-                raise LostAnchor(f"fn {fs.path}: anchor /{m.group(1)}/ matches {len(ms)} times (need exactly 1)")
-            mm = ms[0]
+            # `/re/` must match exactly once; `/re/#KofN` must match exactly N times and selects the K-th (0-based)
+            want = int(m.group(3)) if m.group(3) else 1
+            if len(ms) != want:
+                raise LostAnchor(f"fn {fs.path}: anchor /{m.group(1)}/ matches {len(ms)} times (need exactly {want})")
+            mm = ms[int(m.group(2)) if m.group(2) else 0]
             if kind == "before":
                 ins(mm.start(), ptxt, origin, prio=1)
             elif kind == "after":
                 ins(mm.end(), "\n" + ptxt, origin, prio=-1)
             else:
                 ins(mm.start(), ptxt.rstrip("\n"), {"type": "rewrite", "rule": "adhoc", "fn": fs.path, "unit": unit, "tline": tline}, dl=mm.end() - mm.start())
-                log["rewrites"].append({"rule": "adhoc", "fn": fs.path, "from": mm.group(0), "to": ptxt.strip(), "why": m.group(2)})
+                log["rewrites"].append({"rule": "adhoc", "fn": fs.path, "from": mm.group(0), "to": ptxt.strip(), "why": m.group(4)})
         else:
             raise SystemExit(f"template line {tline}: unknown fn sub-directive {kind}")
     if body_ins:
